@@ -193,6 +193,12 @@ func attributeTo(property string, v Violation, res *Result) (Violation, bool) {
 		if v.Check == "C02.no-fixed-point" && (v.Disc == "extra" || v.Disc == "missing") {
 			return Violation{Prop: "C01", Check: "C01.converged-ordinals", Disc: v.Disc, Step: v.Step, Detail: v.Detail}, true
 		}
+	case "C12":
+		// census at the fixed point: a status that is still wrong when everything
+		// else has settled is first seen by the C02 predicate
+		if v.Check == "C02.no-fixed-point" && v.Disc == "status" {
+			return Violation{Prop: "C12", Check: "C12.census", Disc: "fixed-point-status", Step: v.Step, Detail: v.Detail}, true
+		}
 	case "C16":
 		// "a reconcile that fails is put back with backoff": a failed step that is
 		// swallowed makes the worker Forget the key instead
